@@ -271,7 +271,7 @@ class Program:
             from . import inline as _inline_mod
             _inline_mod.ENUM_CLASSES.clear()
             _inline_mod.ENUM_CLASSES.update(ci.name for ci in self.classes.values() if any(b.rsplit('.', 1)[-1] in ('Enum', 'IntEnum', 'StrEnum', 'Flag') for b in ci.bases))
-            from .inline import Inliner, load_reference, normalise_duplicate_locals, normalise_projected_loops, normalise_result_temps, normalise_branch_results, normalise_parameter_temps, normalise_singleton_generators, normalise_optional_flags, record_classes_of, normalise_record_reads, normalise_record_fields, normalise_record_objects, normalise_attribute_loops, normalise_class_constants, normalise_enum_values, normalise_local_tables, normalise_record_classes, normalise_compiled_patterns, normalise_literal_loops, normalise_module_constants, normalise_small_quantifiers
+            from .inline import Inliner, load_reference, normalise_loop_copies, normalise_duplicate_locals, normalise_projected_loops, normalise_result_temps, normalise_branch_results, normalise_parameter_temps, normalise_singleton_generators, normalise_optional_flags, record_classes_of, normalise_record_reads, normalise_record_fields, normalise_record_objects, normalise_attribute_loops, normalise_class_constants, normalise_enum_values, normalise_local_tables, normalise_record_classes, normalise_compiled_patterns, normalise_literal_loops, normalise_module_constants, normalise_small_quantifiers
             ref = load_reference()
             self._record_tables: dict[str, dict] = {}
             all_records: dict = {}
@@ -320,6 +320,8 @@ class Program:
                         self._count('normalise_singleton_generators', normalise_singleton_generators(fi.node))
                         self._count('normalise_comprehension_fusion', normalise_comprehension_fusion(fi.node))
                         self._count('normalise_projected_loops', normalise_projected_loops(fi.node))
+                        self._count('normalise_record_fields', normalise_record_fields(fi.node, self._record_tables))
+                        self._count('normalise_loop_copies', normalise_loop_copies(fi.node, self))
             from .inline import normalise_unordered_consumers, normalise_unchanged_returns, normalise_comprehension_filters, normalise_conditional_returns, normalise_iteration, normalise_test_locals
             for fi in self.functions.values():
                 if fi.parent is None:
